@@ -12,7 +12,7 @@ RULE = ('compositions over every element of the bundled table, isotope-prefixed 
         'parse(write(c)) == c minus zeros, chem_mass(text) == chem_mass(c), parse(a+b) == parse(a)+parse(b), bracketed '
         'isotopes stay distinct, an unambiguously written glycan (exhaustive segmentation has exactly one reading) parses '
         'to its counts, glycan_comp/glycan_mass equal count-weighted sums over the independently read monosaccharide '
-        'table, name and synonym agree. signature = (clause, separator, hill order, key kinds, count kinds); '
+        'table, name and synonym agree; 2% of the cases are glycan texts whose only reading is not the longest-name-first one (Neu5Acetyl...), with repeated names. signature = (clause, separator, hill order, key kinds, count kinds); '
         'non-trivial = at least two keys')
 ASSUMPTIONS = ['counts are written by Python float/int formatting; magnitudes that would need exponent notation are not generated',
                'for the separated forms the composition has at least one non-zero entry']
@@ -283,6 +283,43 @@ def glycan_clauses(ctx, st, pt, rng):
     ctx.sample({'glycan': counts, 'sep': sep, 'text': text})
 
 
+def glycan_hard(ctx, st, pt, rng):
+    """Texts whose only reading is not the longest-name-first one ('Neu5Acetyl2': Neu x5 + Acetyl x2, while the longest
+    name at the start is Neu5Ac), written from a token LIST so that a name may occur more than once; the expected
+    counts are the per-name sums of the one segmentation the exhaustive reader finds."""
+    by_name = {}
+    for e in obo.monosaccharides():
+        for nm in [e.name] + list(e.synonyms):
+            by_name[nm] = e
+    simple = [n for n in by_name if n.isalpha() and n not in ('Neu5Ac', 'Neu5Gc')]
+    toks = [(rng.choice(simple), rng.randint(1, 6)) for _ in range(rng.randint(0, 2))]
+    toks += [('Neu', 5), (rng.choice(['Acetyl', 'Acetyl', 'Ac']), rng.randint(1, 4))]
+    toks += [(rng.choice(simple), rng.randint(1, 6)) for _ in range(rng.randint(0, 2))]
+    if rng.random() < 0.7:
+        rep = rng.choice(toks)[0]
+        toks.insert(rng.randrange(len(toks) + 1) if rng.random() < 0.5 else len(toks), (rep, rng.randint(1, 5)))
+    text = ''.join(f'{n}{c}' for n, c in toks)
+    segs = rg.segmentations(text, 2)
+    if len(segs) != 1:
+        return
+    exp, mono = {}, 0.0
+    for n, c in segs[0]:
+        exp[n] = exp.get(n, 0) + int(c)
+        mono += by_name[n].mono * int(c)
+    ctx.begin({'glycan_text': text, 'tokens': toks})
+    p = observe(st, pt, 'parse_glycan_formula', text, '')
+    ctx.decided()
+    if not p or p[0] != 'ok' or not close(p[1], exp):
+        ctx.violation('unambiguous-glycan-does-not-parse-to-its-counts', {'text': text, 'expected': exp, 'parsed': p,
+                                                                          'maximal_munch_reading': rg.greedy(text)})
+        return
+    gm = observe(st, pt, 'glycan_mass', text, True)
+    ctx.decided()
+    if not gm or gm[0] != 'ok' or abs(gm[1] - mono) > 1e-6:
+        ctx.violation('glycan_mass-of-text-differs', {'text': text, 'observed': gm, 'expected': mono})
+    ctx.sig(('glycan-not-greedy', len(toks), len(exp) < len(toks), rg.greedy(text) is None), True)
+
+
 def run(ctx):
     st = State()
     pt = install(ctx, st)
@@ -291,7 +328,9 @@ def run(ctx):
     ctx.extra['table_elements'] = len(elements) if ctx.shard == 0 else 0
     ctx.extra['table_isotope_keys'] = len(isotopes) if ctx.shard == 0 else 0
     for i in range(ctx.n(100000, 4000000)):
-        if i % 4 == 3:
+        if i % 50 == 49:
+            glycan_hard(ctx, st, pt, ctx.rng)
+        elif i % 4 == 3:
             glycan_clauses(ctx, st, pt, ctx.rng)
         else:
             chem_clauses(ctx, st, pt, ctx.rng, elements, isotopes)
